@@ -53,6 +53,7 @@ def run(check, prog):
         'per-iteration quantity on the loop element.')
     superposition(check, prog)
     channels(check, prog)
+    tables(check, prog)
     canon = Canon()
     c01.f3_vectors(check, prog, canon)
     # the field of a member must not depend on which members were computed
@@ -258,3 +259,112 @@ def channels(check, prog):
     ok = v[0] == 'call' and v[1] == ('attr', sym('scatterer'), 'from_parameters')
     check.require(ok, 'S2-select-scatterer', 'select_scatterer_by_illumination return',
                   'rebuilds the scatterer from the selected values', loc)
+
+
+def tables(check, prog):
+    """dispatch / selection functions as truth tables over their guard atoms"""
+    import itertools
+    from hpstatic.logic import select
+    from .common import norm_cond
+    # ---- single-colour dispatch
+    q = SINGLE
+    fd = prog.func(q)
+    loc = prog.loc(q, fd)
+    me, sc, schema = [sym(a.arg) for a in fd.args.args[:3]]
+    it = Interp(prog, max_depth=1, opaque=[
+        IF + '_get_field_from', IF + '_calculate_scattered_field_from_superposition',
+        IF + '_pack_field_into_xarray'])
+    v = it.analyze(q).ret_with_raises
+    can = intern(('call', ('attr', ('attr', me, 'scattering_theory'), 'can_handle'),
+                  (sc,), ()))
+    isc = intern(('call', 'isinstance', (
+        sc, ('classref', 'holopy.scattering.scatterer.composite.Scatterers')), ()))
+    direct = intern(('call', ('attr', me, '_get_field_from'), (sc, schema), ()))
+    sup = intern(('call', ('attr', me, '_calculate_scattered_field_from_superposition'),
+                  (('call', ('attr', sc, 'get_component_list'), (), ()), schema), ()))
+
+    def pack(x):
+        return intern(('call', ('attr', me, '_pack_field_into_xarray'), (x, schema), ()))
+    ok = True
+    detail = ''
+    for c, k in itertools.product((True, False), repeat=2):
+        asg = {can: c, isc: k}
+        leaf = select(v, lambda t: asg.get(t))
+        if leaf is not None and leaf[0] == 'call' and leaf[2] and leaf[2][0][0] == 'ite':
+            inner = select(leaf[2][0], lambda t: asg.get(t))
+            leaf = intern(('call', leaf[1], (inner,) + tuple(leaf[2][1:]), leaf[3])) \
+                if inner is not None else None
+        want = pack(direct) if c else (pack(sup) if k else None)
+        good = (leaf == want) if want is not None else (
+            leaf is not None and leaf[0] == 'raise' and
+            'TheoryNotCompatibleError' in show(leaf))
+        if not good:
+            ok = False
+            detail = 'theory can handle it=%s, composite=%s: %s' % (
+                c, k, show(leaf)[:120] if leaf else 'undecided')
+    check.require(ok, 'S1-dispatch', '_calculate_single_color_scattered_field table',
+                  'can_handle -> the theory\'s own field; else a composite -> '
+                  'superposition over its component list; else '
+                  'TheoryNotCompatibleError; the field is packed with the schema', loc,
+                  fail_detail=detail)
+    # ---- select_scatterer_by_illumination
+    q = IFM + 'select_scatterer_by_illumination'
+    fd = prog.func(q)
+    loc = prog.loc(q, fd)
+    scat, illum = [sym(a.arg) for a in fd.args.args[:2]]
+    it = Interp(prog, max_depth=1)
+    it.analyze(q)
+    st = [e for e in it.effects if e['kind'] == 'setitem']
+    ok = len(st) == 1 and st[0]['key'][0] == 'idx' and st[0]['key'][2] == num(0) and \
+        st[0]['key'][1][0] == 'elem'
+    detail = '%d stores' % len(st)
+    if ok:
+        item = st[0]['key'][1]
+        val = intern(('idx', item, num(1)))
+        D = intern(('call', 'isinstance', (val, ('extref', 'dict')), ()))
+        K = intern(('cmp', 'in', illum, ('call', ('attr', val, 'keys'), (), ())))
+        X = intern(('call', 'isinstance', (val, ('extref', 'xarray.DataArray')), ()))
+        by_key = intern(('idx', val, illum))
+        by_sel = intern(('attr', ('call', ('attr', val, 'sel'), (),
+                                  (('illumination', illum),)), 'values'))
+        sv = st[0]['value']
+        for d, k, x in itertools.product((True, False), repeat=3):
+            if (k and not d) or (d and x):
+                continue
+            asg = {D: d, K: k, X: x}
+            leaf = select(sv, lambda t: asg.get(t))
+            # the labelled-array branch is wrapped in try/except: either outcome
+            if leaf is not None and leaf[0] == 'ite' and leaf[1] == ('const', True):
+                leaf = leaf[2]
+            want = by_key if (d and k) else (by_sel if x else val)
+            if leaf != want:
+                ok = False
+                detail = 'dict=%s has label=%s labelled array=%s: %s' % (
+                    d, k, x, show(leaf)[:100] if leaf else 'undecided')
+    check.require(ok, 'S2-select-scatterer', 'select_scatterer_by_illumination table',
+                  'a dict holding the label -> its entry; a labelled array -> '
+                  '.sel(illumination=label).values; anything else unchanged; stored '
+                  'under the parameter\'s own name', loc, fail_detail=detail)
+    # ---- dict_to_array
+    q = MD + 'dict_to_array'
+    fd = prog.func(q)
+    loc = prog.loc(q, fd)
+    schema, inval = [sym(a.arg) for a in fd.args.args[:2]]
+    it = Interp(prog, max_depth=1)
+    res = it.analyze(q)
+    isd = intern(('call', 'isinstance', (inval, ('extref', 'dict')), ()))
+    plain = [o for o in res.returns if o.value == inval]
+    ok = len(plain) == 1 and norm_cond(plain[0].cond) == [(isd, False)]
+    conv = [o for o in res.returns if o.value != inval]
+    ok = ok and len(conv) == 2
+    for o in conv if ok else []:
+        cs = [(t, p) for t, p in norm_cond(o.cond) if t[0] != 'loop-iter']
+        match = [t for t, p in cs if t[0] == 'cmp' and t[1] == '==' and p]
+        ok = ok and cs[0] == (isd, True) and len(match) == 1 and \
+            any(x == ('call', ('attr', inval, 'keys'), (), ()) for x in subterms(match[0]))
+    ok = ok and len(res.raises) == 1 and norm_cond(res.raises[0].cond) == [(isd, True)]
+    check.require(ok, 'S3-dict-to-array', 'dict_to_array table',
+                  'anything but a dict is returned as is; a dict becomes an array along '
+                  'the schema dimension whose coordinates equal its keys; no such '
+                  'dimension -> ValueError', loc, fail_detail='returns under %s' % [
+                      [(show(t)[:50], p) for t, p in o.cond] for o in res.returns])
